@@ -357,3 +357,443 @@ Proof.
       split; [exact I1|]. split; [intros y; rewrite I2, H2; cbn [In]; split; [intros [[H|H]|H]; auto|intros [H|[H|H]]; auto]|].
       split; [intros i; rewrite I3, H3; reflexivity|]. split; [exact I4|split; [intros L0 H; apply I5; apply H5; exact H|rewrite I6; exact H6]].
 Qed.
+
+(* ---------- Part 3: the handler, the new messages ---------- *)
+Fixpoint mknews (k : positive) (outs : list event) : list wmsg :=
+  match outs with [] => [] | e :: r => mkWm k e :: mknews (Pos.succ k) r end.
+Fixpoint psucc_n (n : nat) (k : positive) : positive := match n with O => k | S j => psucc_n j (Pos.succ k) end.
+
+Lemma send_all_mk outs : forall w acc,
+  snd (send_all w outs acc) = rev acc ++ map ESent (mknews (k_next w) outs) /\
+  k_next (fst (send_all w outs acc)) = psucc_n (length outs) (k_next w).
+Proof.
+  induction outs as [|e r IH]; intros w acc; cbn [send_all mknews map length psucc_n fst snd].
+  - rewrite app_nil_r. split; reflexivity.
+  - match goal with |- context [send_all ?w0 r ?a] => destruct (IH w0 a) as [E1 E2] end.
+    rewrite E1, E2. cbn [k_next rev]. rewrite <- app_assoc. split; reflexivity.
+Qed.
+
+Lemma mknews_ev k outs : map wm_ev (mknews k outs) = outs.
+Proof. revert k. induction outs as [|e r IH]; intros k; cbn; [reflexivity|]. rewrite IH. reflexivity. Qed.
+
+Lemma number_mknews l outs : forall k,
+  Abs.number cont (Pos.to_nat k) l (map pay_of outs) = map amsg (mknews k outs).
+Proof.
+  induction outs as [|e r IH]; intros k; cbn [map mknews Abs.number]; [reflexivity|].
+  unfold pay_of at 1. cbn [Abs.number]. rewrite <- IH. rewrite Pos2Nat.inj_succ. reflexivity.
+Qed.
+Lemma psucc_n_nat n : forall k, Pos.to_nat (psucc_n n k) = Pos.to_nat k + n.
+Proof. induction n as [|n IH]; intros k; cbn [psucc_n]; [lia|]. rewrite IH, Pos2Nat.inj_succ. lia. Qed.
+
+Section Handler.
+Variable p : prog.
+
+Lemma replay_flat gs : forall st, replay p st (flat gs) = fold_left (fun s g => fst (handle p (wm_ev (snd g)) s)) gs st.
+Proof.
+  induction gs as [|g gs IH]; intros st; [reflexivity|]. unfold flat. cbn [flat_map]. fold (flat gs).
+  rewrite replay_app. unfold flat1. rewrite replay_app.
+  assert (Hs : all_sent (map ESent (fst g))) by (apply Forall_forall; intros e He; apply in_map_iff in He; destruct He as (z & <- & _); reflexivity).
+  rewrite (replay_sent p st _ Hs). cbn [fold_left]. unfold replay at 2. cbn [fold_left]. apply IH.
+Qed.
+
+Lemma ahandle_eq l s ev : (l < nlps p)%nat -> e_dest ev = N.of_nat l ->
+  ahandle p l s (cont_of ev) = (fst (handle p ev s), map pay_of (snd (handle p ev s))).
+Proof.
+  intros Hl Hd. unfold ahandle. destruct (Nat.ltb_spec l (nlps p)); [|lia].
+  assert (E : ev_of l (cont_of ev) = ev) by (destruct ev as [d t y pl]; unfold ev_of, cont_of, c_t, c_type, c_pl; cbn in *; rewrite Hd; reflexivity).
+  rewrite E. destruct (handle p ev s); reflexivity.
+Qed.
+
+Lemma stof_flat l gs : (l < nlps p)%nat -> (forall g, In g gs -> e_dest (wm_ev (snd g)) = N.of_nat l) -> forall st,
+  fold_left (fun s e => fst (ahandle p l s (Abs.mc cont (Abs.em cont e)))) (map ent gs) st =
+  fold_left (fun s g => fst (handle p (wm_ev (snd g)) s)) gs st.
+Proof.
+  intros Hl. induction gs as [|g gs IH]; intros Hd st; [reflexivity|]. cbn [map fold_left].
+  unfold ent at 2. cbn [Abs.em Abs.mc amsg]. rewrite (ahandle_eq l st (wm_ev (snd g)) Hl (Hd g (or_introl eq_refl))). cbn [fst].
+  apply IH. intros g' Hg'. apply Hd. right. exact Hg'.
+Qed.
+End Handler.
+
+(* ---------- Part 4: the simulation relation ---------- *)
+Lemma flat_last gs g : nth_error (flat (gs ++ [g])) (pred (length (flat (gs ++ [g])))) = Some (EProc (snd g)).
+Proof.
+  rewrite flat_app. unfold flat at 2 4. cbn [flat_map]. rewrite app_nil_r. unfold flat1. rewrite !app_length. cbn [length].
+  rewrite nth_error_app2 by lia. rewrite nth_error_app2 by lia.
+  replace (pred (length (flat gs) + (length (map ESent (fst g)) + 1)) - length (flat gs) - length (map ESent (fst g))) with 0 by lia. reflexivity.
+Qed.
+Lemma flat_length_pos g gs : 0 < length (flat (g :: gs)).
+Proof. unfold flat. cbn [flat_map]. unfold flat1. rewrite !app_length. cbn. lia. Qed.
+
+Lemma keep_undo_groups (a : Abs.abs cont) f s gk gu :
+  (forall g, In g (gk ++ gu) -> Abs.dbefore cont cltb tltb a (amsg s) (ent g) = wbefore f s (snd g)) ->
+  (forall g, In g gu -> wbefore f s (snd g) = true) ->
+  (gk = [] \/ exists gk' g, gk = gk' ++ [g] /\ wbefore f s (snd g) = false) ->
+  Abs.keep_of (Abs.dbefore cont cltb tltb a (amsg s)) (map ent (gk ++ gu)) = map ent gk /\
+  Abs.undo_of (Abs.dbefore cont cltb tltb a (amsg s)) (map ent (gk ++ gu)) = map ent gu.
+Proof.
+  intros Hd Hu Hk. rewrite map_app. apply keep_of_unique.
+  - intros x Hx. apply in_map_iff in Hx. destruct Hx as (g & <- & Hg). rewrite Hd by (apply in_or_app; right; exact Hg). apply Hu. exact Hg.
+  - destruct Hk as [->|(gk' & g & -> & Hg)]; [left; reflexivity|right]. exists (map ent gk'), (ent g). rewrite map_app. split; [reflexivity|].
+    rewrite Hd by (apply in_or_app; left; apply in_or_app; right; left; reflexivity). exact Hg.
+Qed.
+
+Section Sim.
+Variable p : prog.
+Variable ck : nat.
+Hypothesis Hvalid : prog_valid p = true.
+Hypothesis Htypes : types_okb p = true.
+
+Definition init0 : list (Abs.msg cont) := map amsg (pend (w_init p)).
+Definition N0 : nat := Pos.to_nat (k_next (w_init p)).
+Notation n := (nlps p).
+Notation areach := (Bridge.reach cont cltb tltb lpstate n (AppAbs.s0 p) (ahandle p) init0 N0).
+Notation astep := (Abs.step cont cltb tltb lpstate n (AppAbs.s0 p) (ahandle p)).
+Notation aInv := (Abs.Inv cont n init0).
+Definition is_init (m : wmsg) : Prop := e_type (wm_ev m) = LP_INIT_TYPE.
+
+Record R (w : worker) (a : Abs.abs cont) : Prop := {
+  r_full : full p w;
+  r_len : length (k_lps w) = n;
+  r_gvt : k_gvt w = 0%Z;
+  r_epoch : k_epoch w = 0 /\ forall l, l < n -> x_epoch (get_lp w l) = 0;
+  r_mk0 : Mk0 (k_flags w) (pend w) (allmarks (k_lps w));
+  r_no5 : No5 (k_flags w) (allprocs (k_lps w));
+  r_reach : areach a;
+  r_hist : forall l, l < n -> exists ms im gs, x_hist (get_lp w l) = flat ((ms, im) :: gs) /\ is_init im /\
+             base (get_lp w l) = (S (length ms), AppAbs.s0 p l) /\ Abs.hist cont a l = map ent gs;
+  r_pool : forall x, In x (Abs.pool cont a) <-> exists y, Live (k_flags w) (pend w) y /\ x = amsg y;
+  r_antis : forall i, In i (Abs.antis cont a) <-> exists j, Dm (k_flags w) (pend w) (allprocs (k_lps w)) j /\ i = Pos.to_nat j;
+  r_nid : Abs.nid cont a = Pos.to_nat (k_next w)
+}.
+
+Lemma once_loc w : full p w -> k_gvt w = 0%Z -> Loc 0 (k_flags w) (pend w) (allprocs (k_lps w)) (allmarks (k_lps w)) (k_next w).
+Proof. intros F G. pose proof (f_once p w F) as H. unfold once in H. rewrite G in H. exact H. Qed.
+
+(* a processed message is cancelled on the abstract side exactly when its flag word says so *)
+Lemma doomed_iff w a y : R w a -> In y (allprocs (k_lps w)) -> (Abs.doomedb cont a (amsg y) = true <-> fl (k_flags w) y = 3%N).
+Proof.
+  intros Hr Hy. pose proof (once_loc w (r_full _ _ Hr) (r_gvt _ _ Hr)) as L.
+  rewrite (Abs.doomedb_true cont). rewrite (r_antis _ _ Hr). split.
+  - intros (j & (y' & Ey & H) & Ej). cbn [amsg Abs.mid] in Ej. apply Pos2Nat.inj in Ej. rewrite <- Ej in Ey.
+    assert (Efl : fl (k_flags w) y' = fl (k_flags w) y) by (unfold fl; rewrite Ey; reflexivity).
+    destruct (l_pr _ _ _ _ _ _ L y Hy) as [[H1 _]|[[H1 _]|[H1 _]]]; [exact H1| |exfalso; apply (r_no5 _ _ Hr y Hy); exact H1].
+    destruct H as [[_ H]|[_ [H|H]]]; rewrite Efl, H1 in H; discriminate.
+  - intros Hf. exists (wm_id y). split; [|reflexivity]. exists y. split; [reflexivity|right]. split; [exact Hy|left; exact Hf].
+Qed.
+
+Lemma dbefore_wbefore w a s y f : R w a -> In y (allprocs (k_lps w)) -> (forall z, wm_id z <> wm_id s -> fl f z = fl (k_flags w) z) -> wm_id y <> wm_id s ->
+  fl f s = 2%N -> Abs.dbefore cont cltb tltb a (amsg s) (ent ([], y)) = wbefore f s y.
+Proof.
+  intros Hr Hy Hf Hne Hs. pose proof (once_loc w (r_full _ _ Hr) (r_gvt _ _ Hr)) as L.
+  unfold Abs.dbefore. cbn [ent Abs.em snd amsg Abs.mc].
+  assert (Es : Z.land (Z.of_N (fl f s)) 1 = 0%Z) by (rewrite Hs; reflexivity).
+  destruct (Abs.doomedb cont a (amsg y)) eqn:Ed.
+  - apply (doomed_iff w a y Hr Hy) in Ed. symmetry. apply wbefore_doomed; [exact Es|]. rewrite (Hf y Hne), Ed. reflexivity.
+  - assert (H2 : fl (k_flags w) y = 2%N).
+    { destruct (l_pr _ _ _ _ _ _ L y Hy) as [[H1 _]|[[H1 _]|[H1 _]]]; [|exact H1|exfalso; apply (r_no5 _ _ Hr y Hy); exact H1].
+      apply (doomed_iff w a y Hr Hy) in H1. congruence. }
+    symmetry. apply wbefore_valid; [exact Es|]. rewrite (Hf y Hne), H2. reflexivity.
+Qed.
+
+Lemma Live_perm f pd pd' y : Permutation pd pd' -> (Live f pd y <-> Live f pd' y).
+Proof. intros P. unfold Live. split; intros [H1 H2]; (split; [|exact H2]); [apply (Permutation_in _ P H1)|apply (Permutation_in _ (Permutation_sym P) H1)]. Qed.
+Lemma Dm_perm f pd pd' pr i : Permutation pd pd' -> (Dm f pd pr i <-> Dm f pd' pr i).
+Proof.
+  intros P. unfold Dm. split; intros (y & Ey & H); exists y; (split; [exact Ey|]); destruct H as [[H1 H2]|H]; try (right; exact H); left; (split; [|exact H2]);
+    [apply (Permutation_in _ P H1)|apply (Permutation_in _ (Permutation_sym P) H1)].
+Qed.
+
+(* operations that only move pending messages around leave the abstract state where it is *)
+Lemma R_perm w w' a : R w a -> full p w' -> Permutation (pend w) (pend w') -> k_flags w' = k_flags w -> k_lps w' = k_lps w ->
+  k_next w' = k_next w -> k_gvt w' = k_gvt w -> k_epoch w' = k_epoch w -> R w' a.
+Proof.
+  intros [F Hl Hg He M0 N5 Hre Hh Hp Ha Hn] F' P Ef El En Eg Ee.
+  constructor; try assumption.
+  - rewrite El. exact Hl.
+  - rewrite Eg. exact Hg.
+  - rewrite Ee. split; [apply He|]. intros l Hlt. unfold get_lp. rewrite El. apply He. exact Hlt.
+  - rewrite Ef, El. intros o Ho Hf. apply (Permutation_in _ P). apply M0; assumption.
+  - rewrite Ef, El. exact N5.
+  - intros l Hlt. unfold get_lp. rewrite El. apply Hh. exact Hlt.
+  - intros x. rewrite Hp, Ef. split; intros (y & Hy & E); exists y; (split; [|exact E]); [apply (Live_perm _ _ _ _ P)|apply (Live_perm _ _ _ _ P)]; exact Hy.
+  - intros i. rewrite Ha, Ef, El. split; intros (j & Hj & E); exists j; (split; [|exact E]); [apply (Dm_perm _ _ _ _ _ P)|apply (Dm_perm _ _ _ _ _ P)]; exact Hj.
+  - rewrite En. exact Hn.
+Qed.
+
+Lemma hold_epoch k : forall w, k_epoch (hold k w) = k_epoch w.
+Proof.
+  induction k as [|k IH]; intros w; cbn [hold]; [reflexivity|]. pose proof (extract_frame w) as Hfr.
+  destruct (wq_extract w) as [[m|] w1]; cbn [snd] in Hfr; cbn zeta in Hfr; destruct Hfr as (_ & _ & _ & _ & _ & Ee); [rewrite IH; exact Ee|exact Ee].
+Qed.
+Lemma unhold_epoch i w : k_epoch (unhold i w) = k_epoch w.
+Proof. unfold unhold. destruct (k_held w); [reflexivity|]. destruct (nth _ _ _); reflexivity. Qed.
+Lemma unhold_all_epoch w : k_epoch (unhold_all w) = k_epoch w.
+Proof.
+  unfold unhold_all. cbn [set_held k_epoch].
+  assert (G : forall hs w0, k_epoch (fold_left (fun w' h => match h with Some m => wq_insert w' m | None => w' end) hs w0) = k_epoch w0).
+  { induction hs as [|h hs IH]; intros w0; cbn; [reflexivity|]. rewrite IH. destruct h; reflexivity. }
+  apply G.
+Qed.
+
+Notation H_time := (fun ev st e => app_handle_time p ev st e).
+Notation H_type := (fun ev st e => app_handle_type p ev st e Htypes).
+Notation H_dest := (fun ev st e => app_handle_dest p ev st e).
+
+Lemma n_eq : n = N.to_nat (p_lps p).
+Proof. reflexivity. Qed.
+
+(* ---------- abstract facts available in a related state ---------- *)
+Lemma init0_nodup : NoDup (map (Abs.mid cont) init0).
+Proof.
+  unfold init0. rewrite map_map. cbn [amsg Abs.mid].
+  destruct (w_init_full p H_time H_type H_dest (fun me e => app_init p me e Htypes)) as [F _].
+  pose proof (f_once p _ F) as L. pose proof (l_nd_pd _ _ _ _ _ _ L) as Hnd.
+  rewrite <- (map_map wm_id Pos.to_nat). apply FinFun.Injective_map_NoDup; [intros x y; apply Pos2Nat.inj|exact Hnd].
+Qed.
+Lemma init0_lt m : In m init0 -> Abs.mid cont m < N0.
+Proof.
+  unfold init0, N0. intros H. apply in_map_iff in H. destruct H as (y & <- & Hy). cbn [amsg Abs.mid].
+  destruct (w_init_full p H_time H_type H_dest (fun me e => app_init p me e Htypes)) as [F _].
+  pose proof (l_lt _ _ _ _ _ _ (f_once p _ F) y ltac:(apply in_or_app; left; exact Hy)) as Hlt. apply Pos2Nat.inj_lt. exact Hlt.
+Qed.
+Lemma reach_Inv a : areach a -> aInv a.
+Proof.
+  intros Hr. exact (proj1 (Bridge.reach_inv cont cltb clt_trans clt_total tltb tlt_clt tlt_negtrans lpstate n (AppAbs.s0 p) (ahandle p) init0
+                            init0_nodup N0 init0_lt a Hr)).
+Qed.
+Lemma pool_nodup a : aInv a -> NoDup (map (Abs.mid cont) (Abs.pool cont a)).
+Proof. intros I. pose proof (Abs.i_nd_placed cont n init0 a I) as H. unfold Abs.placed in H. rewrite map_app in H. apply (Abs.nodup_app_l _ _ H). Qed.
+
+Lemma remove1_in_iff (l : list (Abs.msg cont)) i x : NoDup (map (Abs.mid cont) l) ->
+  (In x (Abs.remove1 cont i l) <-> In x l /\ Abs.mid cont x <> i).
+Proof.
+  induction l as [|h t IH]; intros Hnd; cbn [Abs.remove1 In]; [tauto|]. cbn [map] in Hnd. inversion Hnd as [|? ? Hh Ht]; subst.
+  destruct (Nat.eqb_spec (Abs.mid cont h) i) as [E|E].
+  - split; [intros Hx; split; [right; exact Hx|]|intros [[<-|Hx] Hne]; [contradiction|exact Hx]].
+    intro Ex. apply Hh. rewrite E, <- Ex. apply in_map. exact Hx.
+  - cbn [In]. rewrite (IH Ht). split; [intros [<-|[Hx Hne]]; [split; [left; reflexivity|exact E]|split; [right; exact Hx|exact Hne]]|].
+    intros [[<-|Hx] Hne]; [left; reflexivity|right; split; assumption].
+Qed.
+Lemma remove_id_in_iff (l : list nat) i x : NoDup l -> (In x (Abs.remove_id i l) <-> In x l /\ x <> i).
+Proof.
+  induction l as [|h t IH]; intros Hnd; cbn [Abs.remove_id In]; [tauto|]. inversion Hnd as [|? ? Hh Ht]; subst.
+  destruct (Nat.eqb_spec h i) as [E|E].
+  - subst h. split; [intros Hx; split; [right; exact Hx|intros ->; contradiction]|intros [[<-|Hx] Hne]; [contradiction|exact Hx]].
+  - cbn [In]. rewrite (IH Ht). split; [intros [<-|[Hx Hne]]; [split; [left; reflexivity|exact E]|split; [right; exact Hx|exact Hne]]|].
+    intros [[<-|Hx] Hne]; [left; reflexivity|right; split; assumption].
+Qed.
+
+(* identities: within the pending and processed messages an identity determines the message *)
+Lemma same_id w y z : full p w -> k_gvt w = 0%Z -> In y (pend w ++ allprocs (k_lps w) ++ allmarks (k_lps w)) ->
+  In z (pend w ++ allprocs (k_lps w) ++ allmarks (k_lps w)) -> wm_id y = wm_id z -> y = z.
+Proof. intros F G Hy Hz E. exact (l_body _ _ _ _ _ _ (once_loc w F G) y z Hy Hz E). Qed.
+
+Lemma fix_bound_epoch x : x_epoch (fix_bound x) = x_epoch x.
+Proof. unfold fix_bound. destruct (x_hist x); reflexivity. Qed.
+Lemma fix_bound_base x : base (fix_bound x) = base x.
+Proof. unfold base. rewrite fix_bound_logs. reflexivity. Qed.
+
+Lemma get_put_other w l x i : i <> l -> get_lp (put_lp w l x) i = get_lp w i.
+Proof. intros H. unfold get_lp. cbn [put_lp set_lps k_lps]. apply (nth_set_nth_other ck). exact H. Qed.
+
+(* ---------- a message cancelled while pending is dropped: abstract step s_drop ---------- *)
+Lemma sim_drop w a w1 m : R w a -> Permutation (pend w) (m :: pend w1) ->
+  k_flags w1 = k_flags w -> k_next w1 = k_next w -> k_gvt w1 = k_gvt w -> k_lps w1 = k_lps w -> k_epoch w1 = k_epoch w ->
+  fl (k_flags w) m = 1%N ->
+  let l := N.to_nat (e_dest (wm_ev m)) in
+  let w3 := set_flags w1 (flag_set (k_flags w1) (wm_id m) 3) in
+  let w' := put_lp w3 l (fix_bound (get_lp w3 l)) in
+  full p w' -> exists a', astep a a' /\ R w' a'.
+Proof.
+  intros Hr Hperm Ef En Eg El Ee Hfm l w3 w' F'.
+  pose proof Hr as [F Hlen Hg [He0 Hel] M0 N5 Hre Hh Hp Ha Hn].
+  pose proof (once_loc w F Hg) as L.
+  assert (HL1 : Loc 0 (k_flags w) (m :: pend w1) (allprocs (k_lps w)) (allmarks (k_lps w)) (k_next w)) by (eapply Loc_perm; [exact L|exact Hperm|apply Permutation_refl|apply Permutation_refl]).
+  assert (Hmin : In m (pend w)) by (apply (Permutation_in _ (Permutation_sym Hperm)); left; reflexivity).
+  destruct (f_extra p w F) as [Hxp Hxl]. destruct (Hxp m Hmin) as [_ Hdl]. fold l in Hdl. rewrite Hlen in Hdl.
+  destruct (nodup_cons_id m (pend w1) (l_nd_pd _ _ _ _ _ _ HL1)) as [Hnm1 _].
+  assert (Hnpr : ~ In m (allprocs (k_lps w))).
+  { destruct (l_pd _ _ _ _ _ _ L m Hmin) as [[H _]|[_ H]]; [rewrite Hfm in H; discriminate|exact H]. }
+  assert (Hnmk : ~ In m (allmarks (k_lps w))).
+  { intro H. destruct (l_mk _ _ _ _ _ _ L m H) as [H1|[H1 _]]; rewrite Hfm in H1; discriminate. }
+  assert (Hid : forall y, In y (pend w ++ allprocs (k_lps w) ++ allmarks (k_lps w)) -> wm_id y = wm_id m -> y = m).
+  { intros y Hy E. apply (same_id w y m F Hg Hy); [apply in_or_app; left; exact Hmin|exact E]. }
+  assert (Hl1 : l < length (k_lps w1)) by (rewrite El, Hlen; exact Hdl).
+  destruct (put_same_hist w3 l (fix_bound (get_lp w3 l)) Hl1 (fix_bound_hist _)) as [Epp Emm].
+  change (k_lps w3) with (k_lps w1) in Epp, Emm. rewrite El in Epp, Emm.
+  set (f' := flag_set (k_flags w1) (wm_id m) 3).
+  assert (Hfl : forall y, wm_id y <> wm_id m -> fl f' y = fl (k_flags w) y) by (intros y Hy; unfold f'; rewrite Ef; apply fl_set_other; exact Hy).
+  assert (Hin1 : forall y, In y (pend w1) -> In y (pend w) /\ wm_id y <> wm_id m).
+  { intros y Hy. assert (Hyw : In y (pend w)) by (apply (Permutation_in _ (Permutation_sym Hperm)); right; exact Hy). split; [exact Hyw|].
+    intro E. apply Hnm1. rewrite <- (Hid y ltac:(apply in_or_app; left; exact Hyw) E). exact Hy. }
+  pose proof (reach_Inv a Hre) as I.
+  assert (Hpm : In (amsg m) (Abs.pool cont a)) by (apply Hp; exists m; split; [split; [exact Hmin|right; exact Hfm]|reflexivity]).
+  assert (Hdm : Abs.doomedb cont a (amsg m) = true).
+  { apply (Abs.doomedb_true cont). apply Ha. exists (wm_id m). split; [|reflexivity]. exists m. split; [reflexivity|left; split; assumption]. }
+  eexists. split; [apply (Abs.s_drop cont cltb tltb lpstate n (AppAbs.s0 p) (ahandle p) a (amsg m) Hpm Hdm)|].
+  constructor; cbn [Abs.hist Abs.pool Abs.antis Abs.nid].
+  - exact F'.
+  - unfold w'. cbn [put_lp set_lps k_lps]. rewrite set_nth_length. change (k_lps w3) with (k_lps w1). rewrite El. exact Hlen.
+  - unfold w'. cbn. rewrite Eg. exact Hg.
+  - split; [change (k_epoch w') with (k_epoch w1); rewrite Ee; exact He0|]. intros i Hi. unfold w'. destruct (Nat.eq_dec i l) as [->|Hne].
+    + rewrite (get_lp_set w3 l _ Hl1), fix_bound_epoch. unfold get_lp. change (k_lps w3) with (k_lps w1). rewrite El. apply Hel. exact Hi.
+    + rewrite (get_put_other w3 l _ i Hne). unfold get_lp. change (k_lps w3) with (k_lps w1). rewrite El. apply Hel. exact Hi.
+  - unfold w'. rewrite Emm. change (pend (put_lp w3 _ _)) with (pend w1). change (k_flags (put_lp w3 _ _)) with f'.
+    intros o Ho Hfo. destruct (Pos.eq_dec (wm_id o) (wm_id m)) as [E|E].
+    + exfalso. apply Hnmk. rewrite <- (Hid o ltac:(rewrite !in_app_iff; tauto) E). exact Ho.
+    + rewrite (Hfl o E) in Hfo. pose proof (M0 o Ho Hfo) as Hop. apply (Permutation_in _ Hperm) in Hop. destruct Hop as [<-|Hop]; [congruence|exact Hop].
+  - unfold w'. rewrite Epp. change (k_flags (put_lp w3 _ _)) with f'. intros y Hy. destruct (Pos.eq_dec (wm_id y) (wm_id m)) as [E|E].
+    + exfalso. apply Hnpr. rewrite <- (Hid y ltac:(rewrite !in_app_iff; tauto) E). exact Hy.
+    + rewrite (Hfl y E). apply N5. exact Hy.
+  - eapply Bridge.rs; [exact Hre|]. apply (Abs.s_drop cont cltb tltb lpstate n (AppAbs.s0 p) (ahandle p) a (amsg m) Hpm Hdm).
+  - intros i Hi. destruct (Hh i Hi) as (ms & im & gs & E1 & E2 & E3 & E4). exists ms, im, gs.
+    unfold w'. destruct (Nat.eq_dec i l) as [->|Hne].
+    + rewrite (get_lp_set w3 l _ Hl1), fix_bound_hist, fix_bound_base. unfold get_lp in *. change (k_lps w3) with (k_lps w1). rewrite El.
+      repeat split; assumption.
+    + rewrite (get_put_other w3 l _ i Hne). unfold get_lp in *. change (k_lps w3) with (k_lps w1). rewrite El. repeat split; assumption.
+  - intros x. rewrite (remove1_in_iff _ _ _ (pool_nodup a I)). rewrite Hp. change (pend w') with (pend w1). change (k_flags w') with f'. split.
+    + intros [(y & [Hy Hfy] & ->) Hne]. cbn [amsg Abs.mid] in Hne. assert (Hne' : wm_id y <> wm_id m) by (intro E; apply Hne; rewrite E; reflexivity).
+      exists y. split; [|reflexivity]. split; [|rewrite (Hfl y Hne'); exact Hfy].
+      apply (Permutation_in _ Hperm) in Hy. destruct Hy as [<-|Hy]; [congruence|exact Hy].
+    + intros (y & [Hy Hfy] & ->). destruct (Hin1 y Hy) as [Hyw Hne]. rewrite (Hfl y Hne) in Hfy. split; [exists y; split; [split; assumption|reflexivity]|].
+      cbn [amsg Abs.mid]. intro E. apply Hne. apply Pos2Nat.inj. exact E.
+  - intros i. rewrite (remove_id_in_iff _ _ _ (Abs.i_nd_antis cont n init0 a I)). rewrite Ha. unfold w'. rewrite Epp. change (pend (put_lp w3 _ _)) with (pend w1).
+    change (k_flags (put_lp w3 _ _)) with f'. cbn [amsg Abs.mid]. split.
+    + intros [(j & (y & Ey & H) & ->) Hne]. assert (Hne' : wm_id y <> wm_id m) by (intro E; apply Hne; rewrite <- Ey, E; reflexivity).
+      exists j. split; [|reflexivity]. exists y. split; [exact Ey|]. rewrite (Hfl y Hne'). destruct H as [[Hy Hfy]|H]; [left; split; [|exact Hfy]|right; exact H].
+      apply (Permutation_in _ Hperm) in Hy. destruct Hy as [<-|Hy]; [congruence|exact Hy].
+    + intros (j & (y & Ey & H) & ->). assert (Hne' : wm_id y <> wm_id m).
+      { destruct H as [[Hy _]|[Hy _]]; [exact (proj2 (Hin1 y Hy))|]. intro E. apply Hnpr. rewrite <- (Hid y ltac:(rewrite !in_app_iff; tauto) E). exact Hy. }
+      rewrite (Hfl y Hne') in H. split; [exists j; split; [|reflexivity]; exists y; split; [exact Ey|]|].
+      * destruct H as [[Hy Hfy]|H]; [left; split; [exact (proj1 (Hin1 y Hy))|exact Hfy]|right; exact H].
+      * intro E. apply Hne'. rewrite Ey. apply Pos2Nat.inj. exact E.
+  - change (k_next w') with (k_next w1). rewrite En. exact Hn.
+Qed.
+
+(* ---------- exact effect of ScheduleNewEvent and of the forward execution ---------- *)
+Lemma mknews_ids_ge outs : forall k z, In z (mknews k outs) -> (k <= wm_id z)%positive.
+Proof.
+  induction outs as [|e r IH]; intros k z H; cbn [mknews] in H; [destruct H|]. destruct H as [<-|H]; [cbn; apply Pos.le_refl|].
+  apply IH in H. eapply Pos.le_trans; [|exact H]. apply Pos.lt_le_incl. apply Pos.lt_succ_diag_r.
+Qed.
+
+Lemma send_all_exact outs : forall w acc,
+  let r := send_all w outs acc in let news := mknews (k_next w) outs in
+  snd r = rev acc ++ map ESent news /\ k_next (fst r) = psucc_n (length outs) (k_next w) /\
+  pend (fst r) = rev news ++ pend w /\ k_lps (fst r) = k_lps w /\ k_gvt (fst r) = k_gvt w /\ k_epoch (fst r) = k_epoch w /\
+  (forall y, In y news -> fl (k_flags (fst r)) y = 0%N) /\
+  (forall y, (forall z, In z news -> wm_id z <> wm_id y) -> fl (k_flags (fst r)) y = fl (k_flags w) y).
+Proof.
+  induction outs as [|e r IH]; intros w acc; cbn zeta; cbn [send_all mknews map length psucc_n fst snd rev].
+  - rewrite app_nil_r. repeat split; try reflexivity. intros y [].
+  - match goal with |- context [send_all ?w0 r ?a] => destruct (IH w0 a) as (E1 & E2 & E3 & E4 & E5 & E6 & E7 & E8); set (w1 := w0) in * end.
+    cbn zeta in *. change (k_next w1) with (Pos.succ (k_next w)) in *.
+    rewrite E1, E2, E3, E4, E5, E6. cbn [rev]. rewrite <- !app_assoc.
+    split; [reflexivity|]. split; [reflexivity|]. split; [reflexivity|]. split; [reflexivity|]. split; [reflexivity|]. split; [reflexivity|].
+    set (m0 := mkWm (k_next w) e) in *.
+    assert (Hm0 : forall z, In z (mknews (Pos.succ (k_next w)) r) -> wm_id z <> wm_id m0).
+    { intros z Hz E. apply mknews_ids_ge in Hz. rewrite E in Hz. cbn in Hz. apply (Pos.lt_irrefl (k_next w)). eapply Pos.lt_le_trans; [apply Pos.lt_succ_diag_r|exact Hz]. }
+    split.
+    + intros y [<-|Hy]; [|apply E7; exact Hy]. rewrite (E8 m0 Hm0). unfold w1. cbn [k_flags]. apply (fl_set_same (k_flags w) m0 0).
+    + intros y Hy. rewrite E8 by (intros z Hz; apply Hy; right; exact Hz). unfold w1. cbn [k_flags].
+      apply (fl_set_other (k_flags w) (wm_id m0) 0 y). intro E. apply (Hy m0 (or_introl eq_refl)). symmetry. exact E.
+Qed.
+
+Lemma forward_exact w l m : l < length (k_lps w) -> lp_ok p (get_lp w l) ->
+  let outs := snd (handle p (wm_ev m) (x_st (get_lp w l))) in let news := mknews (k_next w) outs in
+  let w' := forward p ck w l m in
+  x_hist (get_lp w' l) = x_hist (get_lp w l) ++ map ESent news ++ [EProc m] /\
+  (forall i, i <> l -> get_lp w' i = get_lp w i) /\ base (get_lp w' l) = base (get_lp w l) /\ x_epoch (get_lp w' l) = x_epoch (get_lp w l) /\
+  length (k_lps w') = length (k_lps w) /\
+  k_next w' = psucc_n (length outs) (k_next w) /\ k_gvt w' = k_gvt w /\ k_epoch w' = k_epoch w /\ pend w' = rev news ++ pend w /\
+  (forall y, In y news -> fl (k_flags w') y = 0%N) /\
+  (forall y, (forall z, In z news -> wm_id z <> wm_id y) -> fl (k_flags w') y = fl (k_flags w) y).
+Proof.
+  intros Hl Hok. cbn zeta. unfold forward. destruct (handle p (wm_ev m) (x_st (get_lp w l))) as [st' outs]. cbn [snd].
+  destruct (send_all_exact outs w []) as (E1 & E2 & E3 & E4 & E5 & E6 & E7 & E8). cbn zeta in *.
+  destruct (send_all w outs []) as [w1 marks]. cbn [fst snd rev app] in *. subst marks.
+  assert (Hl1 : l < length (k_lps w1)) by (rewrite E4; exact Hl).
+  split; [rewrite (get_lp_set w1 l _ Hl1); reflexivity|]. split; [intros i Hi; rewrite (get_put_other w1 l _ i Hi); unfold get_lp; rewrite E4; reflexivity|].
+  split; [|split; [rewrite (get_lp_set w1 l _ Hl1); reflexivity|]].
+  - rewrite (get_lp_set w1 l _ Hl1). unfold base. cbn [x_logs]. destruct Hok as (newer & r0 & s0' & El & _).
+    destruct (Nat.leb ck (S (x_rem (get_lp w l)))); [|reflexivity]. apply last_cons_ne. rewrite El. destruct newer; discriminate.
+  - cbn [put_lp set_lps k_lps k_next k_gvt k_epoch k_flags]. change (pend (set_lps w1 _)) with (pend w1). rewrite set_nth_length, E4.
+    repeat split; assumption.
+Qed.
+
+(* ---------- do_rollback: exact shape and what it does to the pool and to the cancelled set ---------- *)
+Lemma do_rollback_unfold w l past ref snap older : drop_newer (x_logs (get_lp w l)) past = (ref, snap) :: older ->
+  do_rollback p w l past =
+  put_lp (fold_left undo_entry (skipn past (x_hist (get_lp w l))) w) l
+         (mkLpx (firstn past (x_hist (get_lp w l))) (x_bound (get_lp w l))
+                (replay p snap (sub (firstn past (x_hist (get_lp w l))) ref past)) ((ref, snap) :: older) (x_rem (get_lp w l)) (x_epoch (get_lp w l))).
+Proof. intros Hd. unfold do_rollback. rewrite Hd. reflexivity. Qed.
+
+Lemma Dm_ext f pd pr pr' i : (forall y, In y pr <-> In y pr') -> (Dm f pd pr i <-> Dm f pd pr' i).
+Proof.
+  intros H. unfold Dm. split; intros (y & Ey & Hy); exists y; (split; [exact Ey|]); destruct Hy as [Hy|[Hy Hf]]; try (left; exact Hy); right; (split; [|exact Hf]); apply H; exact Hy.
+Qed.
+
+Lemma rollback_sets w3 l hand gk0 gu :
+  all_ok2 p w3 -> l < length (k_lps w3) -> x_hist (get_lp w3 l) = flat (gk0 ++ gu) -> fst (base (get_lp w3 l)) <= length (flat gk0) ->
+  Loc 0 (k_flags w3) (pend w3) (hand ++ allprocs (k_lps w3)) (allmarks (k_lps w3)) (k_next w3) ->
+  Mk0 (k_flags w3) (pend w3) (allmarks (k_lps w3)) -> No5 (k_flags w3) (map snd gu) ->
+  let w4 := do_rollback p w3 l (length (flat gk0)) in
+  x_hist (get_lp w4 l) = flat gk0 /\ (forall i, i <> l -> get_lp w4 i = get_lp w3 i) /\ base (get_lp w4 l) = base (get_lp w3 l) /\
+  x_epoch (get_lp w4 l) = x_epoch (get_lp w3 l) /\ length (k_lps w4) = length (k_lps w3) /\ k_next w4 = k_next w3 /\ k_gvt w4 = k_gvt w3 /\ k_epoch w4 = k_epoch w3 /\
+  Loc 0 (k_flags w4) (pend w4) (hand ++ allprocs (k_lps w4)) (allmarks (k_lps w4)) (k_next w4) /\
+  (forall y, Live (k_flags w4) (pend w4) y <-> Live (k_flags w3) (pend w3) y \/ In y (map snd gu)) /\
+  (forall i, Dm (k_flags w4) (pend w4) (hand ++ allprocs (k_lps w4)) i <-> Dm (k_flags w3) (pend w3) (hand ++ allprocs (k_lps w3)) i \/ In i (map wm_id (flat_map fst gu))) /\
+  Mk0 (k_flags w4) (pend w4) (allmarks (k_lps w4)) /\ (forall L, No5 (k_flags w3) L -> No5 (k_flags w4) L).
+Proof.
+  intros Hok Hl Eh Hb HL M0 N5. set (x := get_lp w3 l) in *. set (past := length (flat gk0)).
+  assert (Ef : firstn past (x_hist x) = flat gk0) by (unfold past; rewrite Eh, flat_app, firstn_app, firstn_all, Nat.sub_diag, firstn_O, app_nil_r; reflexivity).
+  assert (Es : skipn past (x_hist x) = flat gu) by (unfold past; rewrite Eh, flat_app, skipn_app, skipn_all, Nat.sub_diag; reflexivity).
+  destruct (get_ok2 p w3 l Hok Hl) as [Hlok _]. fold x in Hlok.
+  pose proof (drop_newer_some p H_time x past Hlok Hb) as Hne.
+  destruct (drop_newer (x_logs x) past) as [|[ref snap] older] eqn:Hd; [congruence|].
+  cbn zeta. rewrite (do_rollback_unfold w3 l past ref snap older Hd). fold x. rewrite Ef, Es.
+  set (restP := rest (fun y => procs_of (x_hist y)) (k_lps w3) l). set (restM := rest (fun y => marks_of (x_hist y)) (k_lps w3) l).
+  assert (HL1 : Loc 0 (k_flags w3) (pend w3) (procs_of (flat gu) ++ (hand ++ procs_of (flat gk0) ++ restP)) (marks_of (flat gu) ++ (marks_of (flat gk0) ++ restM)) (k_next w3)).
+  { eapply Loc_perm; [exact HL|apply Permutation_refl| |].
+    - unfold allprocs. eapply perm_trans; [apply Permutation_app_head; apply (split_lp (fun y => procs_of (x_hist y)) (k_lps w3) l Hl)|].
+      fold (get_lp w3 l). fold x. rewrite Eh, flat_app, procs_app. apply perm_pull2.
+    - unfold allmarks. eapply perm_trans; [apply (split_lp (fun y => marks_of (x_hist y)) (k_lps w3) l Hl)|].
+      fold (get_lp w3 l). fold x. rewrite Eh, flat_app, marks_app. apply perm_pull2'. }
+  assert (M01 : Mk0 (k_flags w3) (pend w3) (marks_of (flat gu) ++ (marks_of (flat gk0) ++ restM))).
+  { intros o Ho. apply M0. unfold allmarks. apply (Permutation_in _ (Permutation_sym (split_lp (fun y => marks_of (x_hist y)) (k_lps w3) l Hl))).
+    fold (get_lp w3 l). fold x. rewrite Eh, flat_app, marks_app. fold restM. rewrite !in_app_iff in *. tauto. }
+  assert (N51 : No5 (k_flags w3) (procs_of (flat gu))) by (rewrite procs_flat; exact N5).
+  destruct (undo_all_sets (flat gu) w3 _ _ HL1 M01 N51) as (U1 & U2 & U3 & U4 & U5 & U6). cbn zeta in *.
+  set (w1 := fold_left undo_entry (flat gu) w3) in *.
+  assert (E1 : k_lps w1 = k_lps w3) by apply undo_all_lps.
+  destruct (undo_all_frame (flat gu) w3) as (B1 & _ & _ & B4 & _ & _). cbn zeta in B1, B4. fold w1 in B1, B4.
+  assert (Hl1 : l < length (k_lps w1)) by (rewrite E1; exact Hl).
+  set (x' := mkLpx (flat gk0) (x_bound x) (replay p snap (sub (flat gk0) ref past)) ((ref, snap) :: older) (x_rem x) (x_epoch x)).
+  assert (PP : Permutation (allprocs (k_lps (put_lp w1 l x'))) (procs_of (flat gk0) ++ restP)).
+  { unfold allprocs. cbn [put_lp set_lps k_lps]. rewrite E1. exact (split_lp_set (fun y => procs_of (x_hist y)) (k_lps w3) l x' Hl). }
+  assert (PM : Permutation (allmarks (k_lps (put_lp w1 l x'))) (marks_of (flat gk0) ++ restM)).
+  { unfold allmarks. cbn [put_lp set_lps k_lps]. rewrite E1. exact (split_lp_set (fun y => marks_of (x_hist y)) (k_lps w3) l x' Hl). }
+  split; [rewrite (get_lp_set w1 l x' Hl1); reflexivity|]. split; [intros i Hi; rewrite (get_put_other w1 l x' i Hi); unfold get_lp; rewrite E1; reflexivity|].
+  split.
+  { rewrite (get_lp_set w1 l x' Hl1). unfold base. cbn [x_logs x'].
+    destruct Hlok as (newer & r0 & s0' & El & Hs & _). pose proof (drop_newer_spec (x_logs x) past Hs) as Hsp. rewrite Hd in Hsp. destruct Hsp as (pre & E & _ & _).
+    rewrite E. symmetry. apply last_suffix. discriminate. }
+  split; [rewrite (get_lp_set w1 l x' Hl1); reflexivity|].
+  split; [cbn [put_lp set_lps k_lps]; rewrite set_nth_length, E1; reflexivity|]. split; [exact U6|]. split; [exact B1|]. split; [exact B4|].
+  change (pend (put_lp w1 l x')) with (pend w1). change (k_flags (put_lp w1 l x')) with (k_flags w1). change (k_next (put_lp w1 l x')) with (k_next w1).
+  split; [eapply Loc_perm; [exact U1|apply Permutation_refl|apply Permutation_app_head; apply Permutation_sym; exact PP|apply Permutation_sym; exact PM]|].
+  split; [intros y; rewrite U2, procs_flat; reflexivity|]. split; [|split; [|exact U5]].
+  - intros i. rewrite marks_flat in U3.
+    rewrite (Dm_ext _ _ (hand ++ allprocs (k_lps (put_lp w1 l x'))) (hand ++ procs_of (flat gk0) ++ restP) i).
+    2:{ intros y. rewrite !in_app_iff. split; (intros [H|H]; [left; exact H|right]); [apply (Permutation_in _ PP) in H|apply (Permutation_in _ (Permutation_sym PP))]; rewrite ?in_app_iff in *; exact H. }
+    rewrite U3. rewrite (Dm_ext _ _ (hand ++ allprocs (k_lps w3)) (procs_of (flat gu) ++ hand ++ procs_of (flat gk0) ++ restP) i); [reflexivity|].
+    intros y. unfold allprocs. rewrite !in_app_iff. split.
+    + intros [H|H]; [tauto|]. apply (Permutation_in _ (split_lp (fun z => procs_of (x_hist z)) (k_lps w3) l Hl)) in H. fold (get_lp w3 l) in H. fold x in H. fold restP in H.
+      rewrite Eh, flat_app, procs_app, !in_app_iff in H. tauto.
+    + intros H. destruct H as [H|[H|H]]; [right| left; exact H |right];
+        apply (Permutation_in _ (Permutation_sym (split_lp (fun z => procs_of (x_hist z)) (k_lps w3) l Hl))); fold (get_lp w3 l); fold x; fold restP;
+        rewrite Eh, flat_app, procs_app, !in_app_iff; tauto.
+  - intros o Ho. apply U4. apply (Permutation_in _ PM). exact Ho.
+Qed.
+End Sim.
